@@ -87,7 +87,21 @@ impl<V> HashMap<CowStr, V> {
     pub fn contains_key<Q: KeyLike + ?Sized>(&self, k: &Q) -> (r: bool) ensures r == self@.contains_key(k.key_text()) { unimplemented!() }
     #[verifier::external_body]
     pub fn len(&self) -> (r: usize) ensures (r == 0) == (self@ == Map::<Seq<char>, V>::empty()) { unimplemented!() }
+    /// API neighbourhood (not called by the unchanged code).  std's bound is `FnMut(&K, &mut V) -> bool`; Verus has no
+    /// contracts for FnMut closures, so the stand-in takes `Fn(&K, &V)` and promises only "nothing is added or altered".
+    #[verifier::external_body]
+    pub fn retain<F: Fn(&CowStr, &V) -> bool>(&mut self, f: F)
+        ensures final(self)@.submap_of(old(self)@)
+    { unimplemented!() }
 }
+impl Value {
+    /// API neighbourhood (not called by the unchanged code): no postcondition.
+    #[verifier::external_body] pub fn is_null(&self) -> (r: bool) { unimplemented!() }
+}
+/// `Option::filter` (API neighbourhood, not called by the unchanged code): keeps the value exactly when the predicate says so.
+pub assume_specification<T, P: FnOnce(&T) -> bool>[Option::<T>::filter](o: Option<T>, p: P) -> (r: Option<T>)
+    requires o matches Some(t) ==> p.requires((&t,)),
+    ensures match o { None => r is None, Some(t) => (r == Some(t) && p.ensures((&t,), true)) || (r is None && p.ensures((&t,), false)) };
 /// std::mem::replace
 pub assume_specification<T>[std::mem::replace::<T>](dest: &mut T, src: T) -> (r: T) ensures r == *old(dest), *final(dest) == src;
 impl<V> Default for HashMap<CowStr, V> {
@@ -363,7 +377,7 @@ impl Processor {
 impl ResponseCookies {
     /// the jar is only ever appended to by this unit (replacing a same-id cookie is modelled as push)
     #[verifier::external_body]
-    pub fn insert(&mut self, c: ResponseCookie<'static>)
+    pub fn insert(&mut self, c: ResponseCookie<'static>) -> (r: Option<ResponseCookie<'static>>)
         ensures cookies_view(final(self)) == cookies_view(old(self)).push(c)
     { unimplemented!() }
 }
